@@ -90,4 +90,19 @@ C18_Record_Failed(ref, qry, rec, rb) ==
                    /\ rb.rpos[j] = ref.x[rec.pairs[j][1]]
                    /\ rb.qpos[j] = qry.x[rec.pairs[j][2]] - qry.x[1]
           THEN {} ELSE {"pair_coordinates_from_the_maps"})
+
+(* C18, the other end of the round trip: what the reader returns against what the WRITER WAS HANDED (the row       *)
+(* objects; lines of kind "readbackg", produced where the harness builds or captures the rows itself).             *)
+(* given = [q, r, rev, qs, qe, rs, re, qlen, rlen (deci-bp, value rounded to the one decimal the format has),      *)
+(*          conf1000 (confidence * 1000, rounded), hit, pairs]                                                     *)
+AbsX(v) == IF v < 0 THEN -v ELSE v
+C18_Given_Failed(given, rb) ==
+    (IF rb.q = given.q /\ rb.r = given.r THEN {} ELSE {"handed_ids"})
+    \cup (IF rb.rev = given.rev THEN {} ELSE {"handed_orientation"})
+    \cup (IF rb.hit = given.hit THEN {} ELSE {"handed_HitEnum"})
+    \cup (IF rb.pairs = given.pairs THEN {} ELSE {"handed_label_pairs"})
+    \cup (IF rb.qs = Trunc10(given.qs) /\ rb.qe = Trunc10(given.qe) /\ rb.rs = Trunc10(given.rs) /\ rb.re = Trunc10(given.re)
+          THEN {} ELSE {"handed_coordinates_truncated_to_integers"})
+    \cup (IF rb.qlen = Trunc10(given.qlen) /\ rb.rlen = Trunc10(given.rlen) THEN {} ELSE {"handed_lengths_truncated_to_integers"})
+    \cup (IF AbsX(rb.conf100 * 10 - given.conf1000) <= 5 THEN {} ELSE {"handed_confidence_to_two_decimals"})
 =============================================================================
